@@ -541,7 +541,7 @@ def judge(ctx, mode, req, resp, before, after, root, srv, closed, case):
             if st != 200:
                 ctx.violation('%s|CLOSE|closable-refused|status-%s' % (PROP, st), 'closable server refused closetool with %s' % st, case)
             else:
-                if not srv.wait_exit(5):
+                if not srv.wait_exit(60):
                     ctx.violation('%s|CLOSE|no-exit' % PROP, 'server did not exit after closetool', case)
                 else:
                     code = os.WEXITSTATUS(srv.exit_status) if os.WIFEXITED(srv.exit_status) else -1
